@@ -342,9 +342,16 @@ func (s *space) large(c *mc.Ctx) {
 			for _, x := range spn {
 				in = append(in, x)
 			}
+			ss2, okSS := spareS(ss, sentScalar)
+			sp2, okSP := spareX(spn, sentExp)
+			ds2, okDS := spareS(ds, sentScalar)
+			dp2, okDP := spareP(dpn, sentPoint)
 			unchanged(w, "EdwardsPoint.ExpandedMultiscalarMulVartime", d(what), cas, in, func() {
-				checkPt(w, "EdwardsPoint.ExpandedMultiscalarMulVartime", func() *curve.EdwardsPoint { return nr().ExpandedMultiscalarMulVartime(ss, spn, ds, dpn) }, want, d(what), cas)
+				checkPt(w, "EdwardsPoint.ExpandedMultiscalarMulVartime", func() *curve.EdwardsPoint { return nr().ExpandedMultiscalarMulVartime(ss2, sp2, ds2, dp2) }, want, d(what), cas)
 			})
+			if !(okSS() && okSP() && okDS() && okDP()) {
+				w.Fail("EdwardsPoint.ExpandedMultiscalarMulVartime/caller-slice-modified", d(what)()+": an argument slice (its elements or the spare capacity behind it) was written to", cas)
+			}
 			w.Eval(cl(fmt.Sprintf("ExpandedMultiscalarMulVartime(static=%d)", len(ss))), true)
 			if len(dpn) > 0 { // receiver among the dynamic points (Straus and Pippenger sizes, both backends' code paths)
 				r, d2 := aliased(dpn, (i*5)%len(dpn))
